@@ -154,8 +154,113 @@ fn enumerate(ctx: &Ctx) -> Box<dyn Iterator<Item = Case>> {
     Box::new(v.into_iter())
 }
 
+// --- total sizes far beyond what a guarded mapping can hold -------------------------
+
+#[derive(Clone, Debug, Serialize, Deserialize)]
+pub struct HugeCase {
+    pub ts: u32,
+    pub reserved: u32,
+    pub last8: Hex,
+}
+
+/// A lazily zero-filled 4 GiB mapping; only the header page and the page with
+/// the last 8 bytes of the declared region are ever touched.
+fn huge_mapping() -> *mut u8 {
+    use std::sync::OnceLock;
+    static P: OnceLock<usize> = OnceLock::new();
+    *P.get_or_init(|| unsafe {
+        let p = libc::mmap(std::ptr::null_mut(), (1usize << 32) + 4096, libc::PROT_READ | libc::PROT_WRITE, libc::MAP_PRIVATE | libc::MAP_ANONYMOUS | libc::MAP_NORESERVE, -1, 0);
+        assert!(p != libc::MAP_FAILED, "cannot reserve 4 GiB of address space");
+        p as usize
+    }) as *mut u8
+}
+
+fn eval_huge(c: &HugeCase, obs: &mut Obs) -> Result<(), String> {
+    if c.last8.0.len() != 8 || c.ts < 4096 {
+        return Err("malformed case".into());
+    }
+    let p = huge_mapping();
+    let ts = c.ts as usize;
+    // the child gets a copy-on-write view: write there, so cases do not leak into each other
+    let want = {
+        if ts % 8 != 0 {
+            MbiLoad::MissingPadding
+        } else if c.last8.0 == mb2_model::encode::END_TAG {
+            MbiLoad::Ok
+        } else {
+            MbiLoad::NoEndTag
+        }
+    };
+    obs.class(format!("expect:{}", want.text()));
+    obs.nontrivial(fnv(format!("{}/{}/{}", c.ts, c.reserved, hex(&c.last8.0)).as_bytes()));
+    obs.sample(json!({"total_size_word": c.ts, "reserved": c.reserved, "last8": hex(&c.last8.0), "expected": want.text()}));
+    let last8 = c.last8.0.clone();
+    let (tsw, res) = (c.ts, c.reserved);
+    let r = mb2_sandbox::run_child(|| {
+        unsafe {
+            let hdr = core::slice::from_raw_parts_mut(p, 8);
+            put32(hdr, 0, tsw);
+            put32(hdr, 4, res);
+            if ts % 8 == 0 {
+                core::ptr::copy_nonoverlapping(last8.as_ptr(), p.add(ts - 8), 8);
+            }
+        }
+        load_transcript(p).render().into_bytes()
+    });
+    let t = match r {
+        mb2_sandbox::ChildResult::Done(b) => Transcript::parse(&String::from_utf8_lossy(&b)).unwrap_or_default(),
+        mb2_sandbox::ChildResult::Signal(s) => return Err(format!("load of a boot information declaring {} bytes crashed (signal {s})", c.ts)),
+        _ => {
+            obs.inconclusive("child did not report");
+            return Ok(());
+        }
+    };
+    let ok = match (want, t.get("load")) {
+        (MbiLoad::Ok, Some(Val::Txt(s))) if s == "Ok" => t.get("mbi.total") == Some(&Val::U(c.ts as u64)) && t.get("mbi.end") == Some(&Val::U(c.ts as u64)) && t.get("mbi.start") == Some(&Val::U(0)),
+        (w, Some(Val::Err(e))) => e == w.text(),
+        _ => false,
+    };
+    if ok {
+        Ok(())
+    } else {
+        Err(format!("total size word {:#x}: expected {}, got {}", c.ts, want.text(), t.render().replace('\n', " ")))
+    }
+}
+
+fn enumerate_huge(_: &Ctx) -> Box<dyn Iterator<Item = HugeCase>> {
+    let mut v = Vec::new();
+    let variants = last8_variants();
+    for ts in [0xFFFF_FFF8u32, 0xFFFF_FFFF, 0xFFFF_FFF9, 0xFFFF_FFF0, 0x8000_0000, 0x8000_0008, 0x7FFF_FFF8, 0x4000_0000, 0x1000_0000, 0x0100_0000, 0x0010_0008] {
+        for l in &variants[..4] {
+            v.push(HugeCase { ts, reserved: ts.rotate_left(7), last8: Hex(l.to_vec()) });
+        }
+    }
+    Box::new(v.into_iter())
+}
+
+fn strategy_huge(_: &Ctx) -> BoxedStrategy<HugeCase> {
+    (
+        prop_oneof![3 => (0x0002_0000u32..=0x1FFF_FFFF).prop_map(|k| 8 * k), 1 => 0x0010_0000u32..=u32::MAX],
+        any::<u32>(),
+        prop_oneof![3 => Just(Hex(mb2_model::encode::END_TAG.to_vec())), 1 => proptest::sample::select(last8_variants()).prop_map(|a| Hex(a.to_vec()))],
+    )
+        .prop_map(|(ts, reserved, last8)| HugeCase { ts, reserved, last8 })
+        .boxed()
+}
+
 pub fn subs() -> Vec<Box<dyn Sub>> {
-    vec![Box::new(PropSub::<Case> {
+    vec![Box::new(PropSub::<HugeCase> {
+        name: "load-huge",
+        rule: "BootInformation::load for total-size words from 1 MiB up to 2^32-1 on a lazily mapped 4 GiB region (only the header page and the page holding the last 8 bytes are touched; each case in a forked child): enumerated 2^32-8, 2^32-1, 2^32-7, 2^32-16, 2^31 (+8, -8), 2^30, 2^28, 2^24, 2^20+8 x 4 end-tag variants; generated: random multiples of 8 and random words. Oracle as `load`. Every case is non-trivial; distinct by (size word, reserved, last 8 bytes)",
+        profiles: Profiles::Both,
+        quick: 300,
+        thorough: 20000,
+        strategy: strategy_huge,
+        enumerate: Some(enumerate_huge),
+        enum_exhaustive: false,
+        eval: eval_huge,
+    }),
+    Box::new(PropSub::<Case> {
         name: "load",
         rule: "BootInformation::load on a guarded mapping of max(8, r8(total size)) bytes; enumerated: null, every total-size word 0..=72 x 8 end-tag variants x 2 reserved words, every multiple of 8 up to 1024 (thorough 4096) with its 7 lower neighbours x {valid, wrong-type} end tag; generated: sizes up to 1 MiB, random reserved/last-8-bytes. Oracle: the statement's precedence + start/end/size equalities. Non-trivial = not (valid size, valid end tag, reserved 0); distinct by (size word, reserved, last 8 bytes)",
         profiles: Profiles::Both,
